@@ -33,23 +33,39 @@ func runHighBits(b *harness.B) {
 	for it := 0; it < iters; it++ {
 		k := 1 + rng.IntN(4)
 		hi := rng.Uint64() &^ (1<<(k+1) - 1)
-		switch it % 4 {
+		switch it % 5 {
 		case 0:
 			hi |= 1 << 63
 		case 1:
 			hi &^= 1 << 63
 		case 2:
 			hi = 1 << 63 // only the top tree besides the small one
+		case 3:
+			// a run of ones above the small tree: the leaves added by the block complete it and the merge cascades
+			// through every tree of the run (up to heights far beyond 32)
+			k = 1 + rng.IntN(2)
+			top := 20 + rng.IntN(42)
+			hi = rng.Uint64()&^(1<<(top+2)-1) | (1<<(top+1) - 1)&^(1<<(k+1)-1)
 		}
 		hi &^= 1 << 62 // keep the count far from 2^64 so that added leaves cannot overflow it
 		numLeaves := hi | 1<<k
+		// directed: leaf counts at which a leaf added by the block receives the index types.UnassignedLeafIndex
+		// (10101010101010101010 < 2^64 is a legal position)
+		sentinel := ""
+		switch it {
+		case 7:
+			k, numLeaves, sentinel = 1, types.UnassignedLeafIndex, "/leaf-index-equal-to-the-unassigned-sentinel"
+		case 8:
+			k, numLeaves, sentinel = 4, types.UnassignedLeafIndex-2, "/leaf-index-equal-to-the-unassigned-sentinel"
+		}
+		hi = numLeaves &^ (1 << k)
 		m := 1 << k
 		start := hi
 		leafHashes := make([]refmodel.Hash, m)
 		var real []types.SiacoinElement
 		realAt := map[int]int{}
 		for j := 0; j < m; j++ {
-			if rng.IntN(4) == 0 && !(j == m-1 && len(real) < 2) {
+			if sentinel == "" && rng.IntN(4) == 0 && !(j == m-1 && len(real) < 2) {
 				leafHashes[j] = refmodel.Hash{0xA0, byte(j), byte(it)}
 				continue
 			}
@@ -128,6 +144,9 @@ func runHighBits(b *harness.B) {
 		}
 		b.Eval(1)
 		b.Count("high_bit_cases", 1)
+		if sentinel != "" {
+			b.Count("high_bit_cases_reaching_the_unassigned_sentinel_index", 1)
+		}
 		b.Distinct("highbits", k, numLeaves>>63, min(bits.OnesCount64(numLeaves), 8), min(len(spend), 4), added)
 		var next consensus.State
 		var au consensus.ApplyUpdate
@@ -167,6 +186,29 @@ func runHighBits(b *harness.B) {
 			}
 			by = append(by, t)
 			b.Count("high_bit_tracked_elements_verified", 1)
+		}
+		// a second, empty block: the elements the first block created are brought up to date like any other
+		blk2 := types.Block{ParentID: next.Index.ID, Timestamp: next.PrevTimestamps[0].Add(net.N.BlockInterval), V2: &types.V2BlockData{}}
+		if c.Seal(next, &blk2, types.VoidAddress, 1, nil) == nil && consensus.ValidateBlock(next, blk2, bs) == nil {
+			var next2 consensus.State
+			var au2 consensus.ApplyUpdate
+			if !b.Guard("C05/high-leaf-count"+sentinel+"/ApplyBlock-of-the-next-block", func() any { return wit }, func() {
+				next2, au2 = consensus.ApplyBlock(next, blk2, bs, chaingen.GenesisTime())
+			}) {
+				for _, d := range au.SiacoinElementDiffs() {
+					if !d.Created || d.Spent {
+						continue
+					}
+					e := d.SiacoinElement.Copy()
+					if b.Guard("C05/high-leaf-count"+sentinel+"/UpdateElementProof-of-a-created-element", func() any { return wit }, func() { au2.UpdateElementProof(&e.StateElement) }) {
+						break
+					}
+					if !elems.Member(next2.Elements, elems.Siacoin(e), e.StateElement, false) {
+						b.Violate("C05/high-leaf-count"+sentinel+"/created-element-does-not-verify/one-block-later", fmt.Sprintf("siacoin element created at leaf %#x does not verify one block later after UpdateElementProof", e.StateElement.LeafIndex), wit)
+					}
+					b.Count("high_bit_created_elements_verified_one_block_later", 1)
+				}
+			}
 		}
 		var ru consensus.RevertUpdate
 		if b.Guard("C05/high-leaf-count/RevertBlock", func() any { return wit }, func() {
